@@ -25,6 +25,30 @@ CHECKS = {
     ),
 }
 
+CHECKS['C07'] = dict(
+    text=('Proof over an executable model of Pool.run (Pool/Model.v: first_enqueue, try_enqueue, handle_death with its drain and re-dispatch '
+          'loop, handle_new_result, the event loop) quantified over every configuration, idle-worker choice and environment script: a normal '
+          'return with retry on is a permutation of map f inputs; no internal error is possible. The invariant (pending counter = sum of '
+          'pending lists, queue/pending correspondence per worker, multiset conservation of inputs) is proved preserved by every primitive. The '
+          'model is tied to pool.py by running the real Pool.run with scripted fake workers on real pipes over all schedules of small '
+          'configurations plus random ones and comparing every outcome (including blocked prefixes) with the model evaluated in Coq.'),
+    design='5/C07',
+    note=('Known findings (excluded domains): a refusing user enqueue_fn (livelock, proved as C07_refuted_...) and run() on a pool with no live '
+          'worker (returns None). Termination for every fair environment is not yet a theorem (only: the nested re-dispatch cannot raise an '
+          'internal error); a worker that neither answers nor dies is outside the property. The model is hand-written: its tie to pool.py is the '
+          'differential harness only. ' + COMMON_NOTE),
+    technique='machine-checked invariant proof (Coq) over a hand-written model + exhaustive small-scope differential correspondence',
+)
+CHECKS['C08'] = dict(
+    text=('Proof over the same Pool.run model: PoolError.partial_results and every normal return hold only genuine results, at most one per '
+          'input, and every input is answered or accounted for as dropped (retry off). Correspondence as for C07, with the oracle of C08 '
+          '(PoolError only when no worker is left alive and open; missing inputs were handed to a worker that died).'),
+    design='5/C08',
+    note=('"PoolError only if every worker is closed" is checked by the direct oracle on every explored schedule and is being proved (invariant J '
+          'in Pool/Inv.v); refusing enqueue_fn is a known finding. ' + COMMON_NOTE),
+    technique='machine-checked invariant proof (Coq) over a hand-written model + exhaustive small-scope differential correspondence',
+)
+
 NOT_YET = {}
 
 
